@@ -73,6 +73,34 @@ func runReader(rd string, o readOpts, input []byte) string {
 			return openErr(o, err)
 		}
 		roots, n = br.Roots, br
+	case "sk-seek", "sk-plain":
+		// a pure SkipNext scan: the CIDs visited and how the iteration ended
+		var r io.Reader = bytes.NewReader(input)
+		if rd == "sk-plain" {
+			r = &plainReader{r}
+		}
+		br, err := carv2.NewBlockReader(r, o.opts()...)
+		if err != nil {
+			return openErr(o, err)
+		}
+		var cs []cid.Cid
+		var serr error
+		for {
+			m, err := br.SkipNext()
+			if err != nil {
+				serr = err
+				break
+			}
+			cs = append(cs, m.Cid)
+			if len(cs) > 1<<20 {
+				panic("runaway reader")
+			}
+		}
+		s := fmt.Sprintf("open=ok roots=%s cids=%s end=%s", cidsStr(br.Roots), cidsStr(cs), classify(serr))
+		if !o.trusted {
+			s += " sound=1"
+		}
+		return s
 	case "v1":
 		cr, err := carv2.VerifNewCarV1Reader(bytes.NewReader(input), o.zeroEOF, o.mh, o.ms)
 		if err != nil {
